@@ -211,7 +211,7 @@ JOBS['C13'] = [
 
 # ---------------------------------------------------------------- C15
 META['C15'] = {
-    'bounds': {'quick': 'buffers of 5 lines each symbolically matching or not x all ranges a,b x g, v and g! x 15 command lists (d, s/a/b/, s/^/V/, -1d, +1d, $d, a+text, d|pu, +1s/b/a/, +1s/a/b/, nested g with and without a range, s|-1d, s|$d, a list whose first command fails on some lines); then u; a 509-line buffer whose line table grows (512) while a global adds lines',
+    'bounds': {'quick': 'buffers of 5 lines each symbolically matching or not x all ranges a,b x g, v and g! x 16 command lists (d, s/a/b/, s/^/V/, -1d, +1d, $d, a+text, d|pu, +1s/b/a/, +1s/a/b/, nested g with and without a range, s|-1d, s|$d, a list whose first command fails on some lines, +1s that splits the next line in two); then u; a 509-line buffer whose line table grows (512) while a global adds lines',
                'thorough': '6 lines; 1021-line buffer (table growth at 1024)'},
     'outside': 'command lists outside the menu; buffers above the bound (the line-table growth during a global is covered by C01/C05 only for plain edits)',
     'assumptions': ['a command that fails inside the list aborts the global (model: stop); the model is written from the property text over line identities'],
@@ -227,7 +227,7 @@ JOBS['C15'] = [
 
 # ---------------------------------------------------------------- C06
 META['C06'] = {
-    'bounds': {'quick': 'buffers of 3 distinct lines x every current line x marks a,b on every line or unset x 21 address forms (N . $ mark +N -N .+N $-N /pat/ ?pat? N,M N;+M % mark,mark N,$ .,+N 0 /pat/+M mark+M 1,?pat?+M) with all digit values 0..4 x 13 commands (d, y x, y X (append), pu x, p, =, ka, a, i, c, r file, rs y, @ z)',
+    'bounds': {'quick': 'buffers of 3 distinct lines x every current line x marks a,b on every line or unset x 21 address forms (N . $ mark +N -N .+N $-N /pat/ ?pat? N,M N;+M % mark,mark N,$ .,+N 0 /pat/+M mark+M 1,?pat?+M) with all digit values 0..4 x 13 commands (d, y x, y X (append), pu x, p, =, ka, a / i / c each with a text block of 2, 1 or 0 lines, r file, rs y, @ z)',
                'thorough': '4 lines, digits 0..5'},
     'outside': '! filters and :r !cmd (need a child process); :so, tags; bare + and - (neatvi reads them as +0); default address of =; scripts of more than one command (the state before the command is arbitrary instead)',
     'assumptions': ['reference: POSIX ex addressing without wrap-around search; after d the current line is the line after the deleted ones or the last line'],
@@ -305,7 +305,7 @@ JOBS['C05'] = [
 
 # ---------------------------------------------------------------- C19
 META['C19'] = {
-    'bounds': {'quick': 'all sequences of 2 commands from a 47-entry menu (j k G H L ^E ^Y ^D ^U ^F ^B z<CR> z. z- dd x o O p P J u ^R :d :1,3d :$ $ 0 3G 2dd yyP 5j w A :2 ^E^E Hdk Hck Ld2j Hjd2k, multi-line inserts whose first line runs past the right edge, $j $k 30| j$ leaving a remembered column beyond a short line) on buffers of 3 and 12 lines (and 12 lines with one long line) in a 6x20 window, and of 1 command on an empty buffer and in a 4x10 window; 2 commands of 20 (j k $ 0 x 25l 12l h dd u p yyP G H ^E D 30| 5| jj 3x) on a buffer with right-to-left lines of 32 and 16 Arabic letters (shaping off) in the same window; a split screen (12 rows, two windows on a 20-line buffer, starting in the upper or the lower one) with 2 commands of 20 (j k ^E ^Y ^D ^U dd o p G H L ^Wj ^Wk ^Wx ^Wo ^Wc u 5j z<CR>), the active window compared; highlighting off',
+    'bounds': {'quick': 'all sequences of 2 commands from a 49-entry menu (j k G H L ^E ^Y ^D ^U ^F ^B z<CR> z. z- dd x o O p P J u ^R :d :1,3d :$ $ 0 3G 2dd yyP 5j w A :2 ^E^E Hdk Hck Ld2j Hjd2k, multi-line inserts whose first line runs past the right edge, $j $k 30| j$, counted puts of a character-wise text spanning a line break (majly`a2p, …3P), leaving a remembered column beyond a short line) on buffers of 3 and 12 lines (and 12 lines with one long line) in a 6x20 window, and of 1 command on an empty buffer and in a 4x10 window; 2 commands of 20 (j k $ 0 x 25l 12l h dd u p yyP G H ^E D 30| 5| jj 3x) on a buffer with right-to-left lines of 32 and 16 Arabic letters (shaping off) in the same window; a split screen (12 rows, two windows on a 20-line buffer, starting in the upper or the lower one) with 2 commands of 20 (j k ^E ^Y ^D ^U dd o p G H L ^Wj ^Wk ^Wx ^Wo ^Wc u 5j z<CR>), the active window compared; highlighting off',
                'thorough': 'sequences of 3 commands on the 12-line buffers'},
     'outside': 'mixed-direction lines and shaped letters on screen (right-to-left lines are pure runs of two-byte letters); highlighting on (the emulator ignores attributes; only A==B is meaningful there); the inactive window of a split screen (it is redrawn when it becomes active); lines with tabs or wide characters (the cell oracle is ASCII)',
     'assumptions': ['the terminal is the VT100 subset of harness/vt.h (CUP, CUF/CUB, EL, IL, DL, DECSTBM, SGR ignored, CR, LF)', 'the editor state is observed between two commands through the environment hook that fires when the next key is read'],
@@ -327,7 +327,7 @@ JOBS['C19'] = [
 
 # ---------------------------------------------------------------- C09
 META['C09'] = {
-    'bounds': {'quick': 'mechanism: 4 symbolic typed keys, two nested pushes of 2 symbolic keys, pushes of 10000 bytes into the 4096-byte queue; relation: one change command from a 20-entry menu with symbolic inserted text (ASCII and 2-byte), symbolic count/register prefix, then . or N. (N<=3) versus retyping; a register executed with @ versus typing its contents (including a . inside the macro)',
+    'bounds': {'quick': 'mechanism: 4 symbolic typed keys, two nested pushes of 2 symbolic keys, pushes of 10000 bytes into the 4096-byte queue; pushes of {1,2,3,40,600,1024} keys after 1/8/15 keys were read, with {2,9,4094..4097,4200,6000} bytes waiting on the terminal and read(0) handing over one byte or all that is waiting; relation: one change command from a 20-entry menu with symbolic inserted text (ASCII and 2-byte), symbolic count/register prefix, then . or N. (N<=3) versus retyping; a register executed with @ versus typing its contents (including a . inside the macro)',
                'thorough': 'two preceding commands before the change'},
     'outside': 'recorded commands >= 4 KiB (excluded by the property); ^A completion; filters',
     'assumptions': ['two runs of the real main() are compared inside one path (symx_isolated); equality of the written file, of the cursor (marker) and of the unnamed register (put at the end)'],
